@@ -75,17 +75,21 @@ def positions():
     def json_term(Q, v):
         from pypika_tortoise.terms import JSON
         return str(Q.from_(t).select(t.a).where(t.j == (JSON(v) if isinstance(v, (dict, list)) else v)))
+    # the file name of MySQL's LOAD DATA: a str inlined as a string literal by the load builder's own template
+    def load_file(Q, v): return str(Q.load(v).into("t"))
 
     return {f.__name__.rstrip("_"): f for f in (sel, where, where_ne, isin, insert, insert_cols, set_, set_where, func,
                                                   case_then, case_else, case_when, default, upsert, between, having,
                                                   like, join_on, subq, setop, delete, arith,
                                                   json_contains, json_contained_by, json_has_key, json_path, json_term,
-                                                  analytic_arg, analytic_partition, agg_filter, agg_arg_filter, custom_function, orderby_value, groupby_value)}
+                                                  analytic_arg, analytic_partition, agg_filter, agg_arg_filter, custom_function, orderby_value, groupby_value, load_file)}
 
 
 # positions whose operand is a document or a string only
 ONLY_KINDS = {"json_contains": {"json", "jsonlist", "str"}, "json_contained_by": {"json", "jsonlist", "str"}, "json_has_key": {"str"}, "json_path": {"str"},
-              "json_term": {"json", "jsonlist", "str"}}
+              "json_term": {"json", "jsonlist", "str"}, "load_file": {"str"}}
+# positions that exist under some dialects only
+ONLY_DIALECTS = {"load_file": {"mysql"}}
 
 
 def shared_positions():
@@ -272,6 +276,8 @@ def run(tier: str) -> int:
     engine_checked = [0]
     for d, Q in qcls.items():
         for pname, f in pos.items():
+            if pname in ONLY_DIALECTS and d not in ONLY_DIALECTS[pname]:
+                continue
             try:
                 btext = f(Q, MARK)
             except Exception as ex:
@@ -284,6 +290,8 @@ def run(tier: str) -> int:
             for kind, v in cases:
                 if (pname, kind) in NOT_A_VALUE or (pname in ONLY_KINDS and kind not in ONLY_KINDS[pname]):
                     continue
+                if pname == "load_file" and v == "":
+                    continue  # (an empty file name is "no file yet" to the load builder: no statement is rendered, nothing is inlined)
                 listdoc = kind == "jsonlist"
                 if listdoc:
                     if pname == "insert_cols":
